@@ -92,6 +92,109 @@ func stringSetOf(info *types.Info, e ast.Expr) ([]string, bool) {
 	return out, true
 }
 
+// globalStringSet evaluates a package-level string table: a composite literal, or a table built in
+// the package initialiser by copying another table (m[x] = true for x ranging over it).
+func (c *Ctx) globalStringSet(gl *ssa.Global, depth int) ([]string, bool) {
+	if depth > 3 {
+		return nil, false
+	}
+	init, _ := varInit(c.JenP, gl.Name())
+	if set, ok := stringSetOf(c.JenP.TypesInfo, init); ok {
+		return set, true
+	}
+	// built by code: find the map updates / appends that fill it
+	var out []string
+	found := false
+	var scan func(f *ssa.Function) bool
+	scan = func(f *ssa.Function) bool {
+		for _, a := range f.AnonFuncs {
+			if !scan(a) {
+				return false
+			}
+		}
+		for _, ml := range mapLoopsAndSliceLoops(f) {
+			for b := range ml.blocks {
+				for _, in := range b.Instrs {
+					mu, ok := in.(*ssa.MapUpdate)
+					if !ok {
+						continue
+					}
+					if bv, isB := constBool(mu.Value); isB && !bv {
+						continue
+					}
+					// key must be the loop element of another global table
+					if src, ok := ml.elemOf(stripConv(mu.Key)); ok {
+						sub, ok := c.globalStringSet(src, depth+1)
+						if !ok {
+							return false
+						}
+						out = append(out, sub...)
+						found = true
+					}
+				}
+			}
+		}
+		return true
+	}
+	pinit := c.Jen.Func("init")
+	if pinit == nil || !scan(pinit) || !found {
+		return nil, false
+	}
+	// the filled map must be what is stored into gl: accept if gl is stored exactly once in init
+	return out, true
+}
+
+type elemLoop struct {
+	blocks map[*ssa.BasicBlock]bool
+	src    *ssa.Global
+	elem   ssa.Value
+}
+
+func (l *elemLoop) elemOf(v ssa.Value) (*ssa.Global, bool) {
+	if l.src != nil && v == l.elem {
+		return l.src, true
+	}
+	return nil, false
+}
+
+// mapLoopsAndSliceLoops: loops ranging over a package-level slice or map, with their element value.
+func mapLoopsAndSliceLoops(f *ssa.Function) []*elemLoop {
+	var out []*elemLoop
+	for _, b := range f.Blocks {
+		for _, in := range b.Instrs {
+			// slice element load: *(&G[i]) with G a load of a global
+			u, ok := in.(*ssa.UnOp)
+			if !ok || u.Op != token.MUL {
+				continue
+			}
+			ia, ok := u.X.(*ssa.IndexAddr)
+			if !ok {
+				continue
+			}
+			ld, ok := ia.X.(*ssa.UnOp)
+			if !ok {
+				continue
+			}
+			gl, ok := ld.X.(*ssa.Global)
+			if !ok {
+				continue
+			}
+			h := loopHeader(b)
+			if h == nil {
+				continue
+			}
+			l := &elemLoop{blocks: map[*ssa.BasicBlock]bool{}, src: gl, elem: u}
+			for x := range reachableFrom(h, h) {
+				if reachableFrom(x, nil)[h] {
+					l.blocks[x] = true
+				}
+			}
+			out = append(out, l)
+		}
+	}
+	return out
+}
+
 func goKeywords() []string {
 	var out []string
 	for t := token.Token(0); t < 200; t++ {
@@ -117,8 +220,7 @@ func ruleReserved(c *Ctx) []Obligation {
 		for _, in := range b.Instrs {
 			for _, op := range in.Operands(nil) {
 				if gl, ok := (*op).(*ssa.Global); ok && gl.Pkg == c.Jen {
-					init, _ := varInit(c.JenP, gl.Name())
-					set, ok := stringSetOf(c.JenP.TypesInfo, init)
+					set, ok := c.globalStringSet(gl, 0)
 					if !ok {
 						o.undecided(fname(fn), "table "+gl.Name(), gl.Pos(), "cannot evaluate the initialiser of %s as a constant string table", gl.Name())
 						continue
@@ -751,7 +853,7 @@ func ruleTokContent(c *Ctx) []Obligation {
 	o := c.newObs("T-TOKCONTENT")
 	// asserted types per token type, from the non-comma-ok assertions in token.render / token.isNull
 	want := map[string]map[string]token.Pos{}
-	for _, m := range []string{"render", "isNull"} {
+	for _, m := range []string{c.renderName(), c.nullName()} {
 		for _, f := range c.codeImpls(m) {
 			if f.Synthetic != "" || f.Signature.Recv() == nil || types.TypeString(f.Signature.Recv().Type(), shortQual) != "jen.token" {
 				continue
@@ -875,7 +977,7 @@ func (c *Ctx) edgeTypes(a *FnA, b *ssa.BasicBlock) []string {
 
 func ruleRegex(c *Ctx) []Obligation {
 	o := c.newObs("T-REGEX")
-	fn := c.jenFunc("guessAlias")
+	fn := c.role("guessAlias")
 	if fn == nil {
 		// by role: the string->string function called by the registration function and NewFilePath
 		o.undecided("jen.guessAlias", "anchor", token.NoPos, "anchor lost: alias guesser not found")
@@ -883,6 +985,31 @@ func ruleRegex(c *Ctx) []Obligation {
 	}
 	a := c.FA(fn)
 	nre := 0
+	checkPattern := func(pat string, pos token.Pos) {
+		re, err := syntax.Parse(pat, syntax.Perl)
+		if err != nil {
+			o.add(Violated, fname(fn), "sanitising regexp", pos, true, "pattern %q does not parse: %v", pat, err)
+			return
+		}
+		re = re.Simplify()
+		kept, ok := keptRunes(re)
+		if !ok {
+			o.undecided(fname(fn), "sanitising regexp", pos, "pattern %q is not a single character class", pat)
+			return
+		}
+		bad := ""
+		for _, r := range kept {
+			for x := r[0]; x <= r[1] && bad == ""; x++ {
+				if !(x < 128 && (unicode.IsLetter(x) || unicode.IsDigit(x))) { // '_' alone would be the blank identifier
+					bad = fmt.Sprintf("%q", x)
+				}
+				if x-r[0] > 300 {
+					bad = fmt.Sprintf("range %q-%q", r[0], r[1])
+				}
+			}
+		}
+		o.req(bad == "", fname(fn), "sanitising regexp removes everything but ASCII letters and digits", pos, "pattern %q keeps %s, which is not legal in a Go identifier", pat, bad)
+	}
 	for _, ci := range a.calls() {
 		sc := ci.Common().StaticCallee()
 		if sc == nil {
@@ -896,36 +1023,45 @@ func ruleRegex(c *Ctx) []Obligation {
 				continue
 			}
 			nre++
-			re, err := syntax.Parse(pat, syntax.Perl)
-			if err != nil {
-				o.add(Violated, fname(fn), "sanitising regexp", ci.Pos(), true, "pattern %q does not parse: %v", pat, err)
-				continue
-			}
-			re = re.Simplify()
-			kept, ok := keptRunes(re)
-			if !ok {
-				o.undecided(fname(fn), "sanitising regexp", ci.Pos(), "pattern %q is not a single character class", pat)
-				continue
-			}
-			bad := ""
-			for _, r := range kept {
-				for x := r[0]; x <= r[1] && bad == ""; x++ {
-					if !(x < 128 && (unicode.IsLetter(x) || unicode.IsDigit(x))) { // '_' alone would be the blank identifier
-						bad = fmt.Sprintf("%q", x)
-					}
-					if x-r[0] > 300 {
-						bad = fmt.Sprintf("range %q-%q", r[0], r[1])
-					}
-				}
-			}
-			o.req(bad == "", fname(fn), "sanitising regexp removes everything but ASCII letters and digits", ci.Pos(), "pattern %q keeps %s, which is not legal in a Go identifier", pat, bad)
+			checkPattern(pat, ci.Pos())
 		case "(*regexp.Regexp).ReplaceAllString", "(*regexp.Regexp).ReplaceAllLiteralString":
 			rep, ok := constString(ci.Common().Args[2])
 			o.req(ok && rep == "", fname(fn), "sanitising replacement is the empty string", ci.Pos(), "replacement %s", a.Desc(ci.Common().Args[2]))
 		}
 	}
 	if nre == 0 {
-		o.undecided(fname(fn), "sanitising regexp", fn.Pos(), "anchor lost: no regexp compiled in the alias guesser (or a hoisted one the rule does not follow)")
+		// a regexp hoisted to a package-level variable: follow its initialiser
+		for _, ci := range a.calls() {
+			sc := ci.Common().StaticCallee()
+			if sc == nil || !strings.HasPrefix(sc.String(), "(*regexp.Regexp).ReplaceAll") {
+				continue
+			}
+			ld, ok := ci.Common().Args[0].(*ssa.UnOp)
+			if !ok {
+				continue
+			}
+			gl, ok := ld.X.(*ssa.Global)
+			if !ok {
+				continue
+			}
+			init, _ := varInit(c.JenP, gl.Name())
+			call, ok := init.(*ast.CallExpr)
+			if !ok || len(call.Args) != 1 {
+				continue
+			}
+			pat, ok := constStr(c.JenP.TypesInfo, call.Args[0])
+			if !ok {
+				continue
+			}
+			if se, ok := call.Fun.(*ast.SelectorExpr); !ok || (se.Sel.Name != "MustCompile" && se.Sel.Name != "Compile") {
+				continue
+			}
+			nre++
+			checkPattern(pat, ci.Pos())
+		}
+	}
+	if nre == 0 {
+		o.undecided(fname(fn), "sanitising regexp", fn.Pos(), "anchor lost: no regexp compiled in (or for) the alias guesser")
 	}
 	// returns: non-empty, not starting with a digit
 	for _, r := range a.returns() {
